@@ -36,13 +36,14 @@ CONSTANTS N,           \* qubits
           WithBad,     \* BOOLEAN: offer malformed calls too
           WithMeasure, \* BOOLEAN: offer mid-circuit MEASURE gates (dephasing)
           Budget,      \* bound on the accumulated denominator bits
+          Sources,     \* "zero", "generic" or "both": the initial statevectors offered to Init
           Focus,       \* BOOLEAN: generation policy - non-empty model, gates at odd positions carry a modelled name
           SameGate,    \* BOOLEAN: generation policy - all calls address the gate of the first call (both types on one gate)
           Export
 
-VARIABLES phase, calls, model, gates, pc, rho, psi, pure, bits, noisy
+VARIABLES phase, calls, model, gates, pc, rho, psi, pure, bits, noisy, s0
 
-vars == <<phase, calls, model, gates, pc, rho, psi, pure, bits, noisy>>
+vars == <<phase, calls, model, gates, pc, rho, psi, pure, bits, noisy, s0>>
 
 D == Dim(N)
 Qubits == 0..(N-1)
@@ -134,9 +135,20 @@ OpTerms ==
         [w |-> W2(0, 1, Last, 2), c |-> Dyadic(5, 2)] >> >>
 \* for N = 1 the two-letter words collapse to the letter on qubit 0 given first (W2 tests q1 first); duplicates are summed
 
+\* ---- initial states: part of Init (the option initial_statevector of simulate / get_expectation_value) --------
+\* |0..0> and one entangled exact ring state with pairwise different phases and non-uniform magnitudes
+GenericPrep ==
+  [q \in 1..N |-> G("H", <<q-1>>, <<>>, 0)]
+  \o [q \in 1..N |-> G("PHASE", <<q-1>>, <<>>, q)]
+  \o [q \in 1..(N-1) |-> G("CNOT", <<q>>, <<q-1>>, 0)]
+  \o << G("RY", <<0>>, <<>>, 2), G("T", <<N-1>>, <<>>, 0) >>
+Generic == Run(ZeroState(N), GenericPrep, N)
+InitStates == IF Sources = "zero" THEN {ZeroState(N)} ELSE IF Sources = "generic" THEN {Generic} ELSE {ZeroState(N), Generic}
+
 Init == /\ phase = "model"
         /\ calls = <<>> /\ model = <<>> /\ gates = <<>> /\ pc = 1
-        /\ rho = Pure(ZeroState(N), D) /\ psi = ZeroState(N) /\ pure = TRUE /\ bits = 0 /\ noisy = FALSE
+        /\ s0 \in InitStates
+        /\ rho = Pure(s0, D) /\ psi = s0 /\ pure = TRUE /\ bits = (IF s0 = ZeroState(N) THEN 0 ELSE N + 2) /\ noisy = FALSE
 
 NRejected == Cardinality({j \in 1..Len(calls) : calls[j].verdict # "accept"})
 
@@ -148,15 +160,15 @@ AddError(g, ty, pr) ==
        /\ calls' = Append(calls, [gate |-> g, type |-> ty, kind |-> pr.kind, params |-> pr.v, verdict |-> v])
        /\ model' = IF v = "accept" THEN Added(model, g, ty, pr) ELSE model
        /\ phase' = IF v = "reject-by-use" THEN "circuit" ELSE "model"      \* such a call ends the model phase
-  /\ UNCHANGED <<gates, pc, rho, psi, pure, bits, noisy>>
+  /\ UNCHANGED <<gates, pc, rho, psi, pure, bits, noisy, s0>>
 EndModel == /\ phase = "model" /\ phase' = "circuit" /\ (Focus => model # <<>>)
-            /\ UNCHANGED <<calls, model, gates, pc, rho, psi, pure, bits, noisy>>
+            /\ UNCHANGED <<calls, model, gates, pc, rho, psi, pure, bits, noisy, s0>>
 Relevant(g) == ~Focus \/ model = <<>> \/ Len(gates) % 2 = 1 \/ g.name \in {model[j].gate : j \in 1..Len(model)}
 AddGate(g) == /\ phase = "circuit" /\ Len(gates) < MaxGates /\ Relevant(g)
               /\ gates' = Append(gates, g)
-              /\ UNCHANGED <<phase, calls, model, pc, rho, psi, pure, bits, noisy>>
+              /\ UNCHANGED <<phase, calls, model, pc, rho, psi, pure, bits, noisy, s0>>
 EndCircuit == /\ phase = "circuit" /\ Len(gates) >= 1 /\ phase' = "run"
-              /\ UNCHANGED <<calls, model, gates, pc, rho, psi, pure, bits, noisy>>
+              /\ UNCHANGED <<calls, model, gates, pc, rho, psi, pure, bits, noisy, s0>>
 
 Step == /\ phase = "run" /\ pc <= Len(gates)
         /\ LET g    == gates[pc]
@@ -169,9 +181,20 @@ Step == /\ phase = "run" /\ pc <= Len(gates)
               /\ pure' = (pure /\ g.name # "MEASURE")
               /\ noisy' = (noisy \/ \E j \in 1..Len(errs) : ~IsZeroErr(errs[j]))
         /\ pc' = pc + 1
-        /\ UNCHANGED <<phase, calls, model, gates>>
+        /\ UNCHANGED <<phase, calls, model, gates, s0>>
 
-ExportRec == [n |-> N, gates |-> gates, calls |-> calls, model |-> model, rho |-> rho, noisy |-> noisy, pure |-> pure,
+\* ---- outcome-resolved run (desired_meas_result / save_mid_circuit_meas under noise) ----------------------------
+\* unnormalised rho_d: the same run with the projection P_b rho P_b at every MEASURE; tr(rho_d) = probability of d
+RECURSIVE CondRun(_, _, _)
+CondRun(r, j, d) ==
+  IF j > Len(gates) THEN r
+  ELSE LET g == gates[j] IN
+       IF g.name = "MEASURE" THEN CondRun(ProjectRho(r, g.t[1], d[1], N), j + 1, Tail(d))
+       ELSE CondRun(ApplyErrs(ApplyGateRho(r, g, N), g, ErrsOf(model, g.name), 1), j + 1, d)
+NMeas == Cardinality({j \in 1..Len(gates) : gates[j].name = "MEASURE"})
+CondTable == IF NMeas = 0 THEN {} ELSE {[d |-> d, rho |-> CondRun(Pure(s0, D), 1, d)] : d \in [1..NMeas -> {0, 1}]}
+
+ExportRec == [s0 |-> s0, cond |-> CondTable, n |-> N, gates |-> gates, calls |-> calls, model |-> model, rho |-> rho, noisy |-> noisy, pure |-> pure,
               psi |-> psi,
               tw |-> {[w |-> w, v |-> TrWord(rho, w, N)] : w \in AllWords(N)},
               ops |-> [j \in 1..Len(OpTerms) |-> [terms |-> OpTerms[j], v |-> TrOp(rho, OpFromTerms(OpTerms[j]), N)]]]
@@ -179,7 +202,7 @@ ExportRec == [n |-> N, gates |-> gates, calls |-> calls, model |-> model, rho |-
 Finish == /\ phase = "run" /\ pc > Len(gates)
           /\ phase' = "done"
           /\ (Export => PrintT(<<"NR", ToJson(ExportRec)>>))
-          /\ UNCHANGED <<calls, model, gates, pc, rho, psi, pure, bits, noisy>>
+          /\ UNCHANGED <<calls, model, gates, pc, rho, psi, pure, bits, noisy, s0>>
 
 Next == \/ \E g \in ModelGates : \E ty \in Types : \E pr \in Params(ty) : AddError(g, ty, pr)
         \/ EndModel
@@ -213,6 +236,9 @@ ModelIsAcceptedCalls ==
       Build(m, j) == IF j > Len(acc) THEN m
                      ELSE Build(Added(m, acc[j].gate, acc[j].type, [kind |-> acc[j].kind, v |-> acc[j].params]), j + 1)
   IN model = Build(<<>>, 1)
+\* the outcome-resolved states sum to the unconditioned (dephased) final state
+CondSumsToRho == (phase = "done" /\ NMeas > 0) =>
+                    FoldSet(LAMBDA c, acc : MAdd(acc, c.rho, D), ZeroMat(D), CondTable) = rho
 AlphabetOK == \A g \in GAlpha : g.name = "MEASURE" \/ WellFormed(g, N)
 
 \* which backend configurations accept a noise model (exported once; the driver checks each row)
